@@ -296,3 +296,31 @@ impl Universe for AddrValues {
         }
     }
 }
+
+/// Builds the library's address structs without struct literals (a new public field would break the harness
+/// build) and without trusting the constructors' argument order (C19 checks that separately): construct, then
+/// assign every field.
+pub fn make_v4(src: [u8; 4], dst: [u8; 4], sport: u16, dport: u16) -> ppp::v1::IPv4 {
+    let mut a = ppp::v1::IPv4::new(src, dst, sport, dport);
+    a.source_address = std::net::Ipv4Addr::from(src);
+    a.destination_address = std::net::Ipv4Addr::from(dst);
+    a.source_port = sport;
+    a.destination_port = dport;
+    a
+}
+
+pub fn make_v6(src: [u8; 16], dst: [u8; 16], sport: u16, dport: u16) -> ppp::v1::IPv6 {
+    let mut a = ppp::v1::IPv6::new(src, dst, sport, dport);
+    a.source_address = std::net::Ipv6Addr::from(src);
+    a.destination_address = std::net::Ipv6Addr::from(dst);
+    a.source_port = sport;
+    a.destination_port = dport;
+    a
+}
+
+pub fn make_unix(src: [u8; 108], dst: [u8; 108]) -> ppp::v2::Unix {
+    let mut u = ppp::v2::Unix::new(src, dst);
+    u.source = src;
+    u.destination = dst;
+    u
+}
